@@ -412,3 +412,8 @@ S(id="RG.tail", props=["C10", "C14"], spec="rgtail.spec.c", harness="h_rg_tail",
   what="NO_RULES only when no rule was read; `$S : error $eof' is added iff no rule of the start symbol begins with `error'; the grammar is checked while still marked undefined, "
        "the code vector is built after the check, and undefined_p is cleared as the last action",
   assumes=["R6: the region is cut from yaep_read_grammar on every run", "debug output of the region is not modelled (printers replaced by empty contracts)"])
+S(id="T.copy.rule", props=["C13", "C12"], spec="symtab.spec.c", harness="h_rule_start", mode="L", canaries=2, enforce=["rule_new_start/rule_start_c"],
+  replace=["_OS_add_string_function/os_add_string_use_c", "_OS_expand_memory/os_expand_use_c"], functions=["rule_new_start"], params={"quick": {"CAP": 32}, "thorough": {"CAP": 256}},
+  disabled="work in progress",
+  what="the rule record is linked into the rule list and its left-hand side's list; the abstract node name is a COPY inside the grammar's rule storage (different object, equal bytes), "
+       "its cost is stored (0 without abstract node); the right-hand side starts as an open array holding the NULL end marker")
